@@ -64,6 +64,26 @@ def fnames_profile(env):
     return p
 
 
+def letbinder_profile(env):
+    """bound variables named like the DAG printer's let variables, used in bodies deep enough for the
+    printer to introduce lets before the last use of the variable"""
+    p = Profile("letbinder", env)
+    m = p.m
+    d0, a = p.sym(".def_0", BOOL), p.sym("a", BOOL)
+    d1 = p.sym(".def_1", INT)
+    p.leaf(BOOL, d0, a)
+    p.leaf(INT, d1, m.Int(0))
+    p.op("not", [BOOL], BOOL, lambda m, x: m.Not(x))
+    p.op("and", [BOOL, BOOL], BOOL, lambda m, x, y: m.And(x, y))
+    p.op("or", [BOOL, BOOL], BOOL, lambda m, x, y: m.Or(x, y))
+    p.op("le", [INT, INT], BOOL, lambda m, x, y: m.LE(x, y))
+    p.op("plus", [INT, INT], INT, lambda m, x, y: m.Plus(x, y))
+    p.op("forall_d0", [BOOL], BOOL, lambda m, f: m.ForAll([d0], f))
+    p.op("exists_d1", [BOOL], BOOL, lambda m, f: m.Exists([d1], f))
+    p.op("forall_d0d1", [BOOL], BOOL, lambda m, f: m.ForAll([d0, d1], f))
+    return p
+
+
 def consts_profile(env):
     p = Profile("consts", env)
     m = p.m
@@ -349,6 +369,9 @@ def parts(ctx):
     A(dict(name="uf-d2", profile=P.uf_profile, depth=2, shards=8, dom={INT: (0, 1, 2)}, max_new=mx))
     A(dict(name="quant-d2", profile=P.quant_profile, depth=2, shards=16, dom={INT: (0, 1)}, max_new=1))
     A(dict(name="names-d2", profile=names_profile, depth=2, shards=16, dom={INT: (0, 1)}, max_new=1))
+    A(dict(name="letbinder-d3", profile=letbinder_profile, depth=3, shards=16, dom={INT: (0, 1)},
+           mid_ops=lambda o: o.name in ("not", "and", "or", "le", "plus"),
+           top_ops=lambda o: o.name.startswith(("forall", "exists"))))
     A(dict(name="fnames-d3", profile=fnames_profile, depth=3, shards=8, dom={INT: (0, 1)},
            top_ops=lambda o: o.name == "dup"))
     A(dict(name="consts-d2", profile=consts_profile, depth=2, shards=8, max_new=1,
